@@ -164,4 +164,24 @@ theorem C09_bytesC (p : Policy) (hp : PlainC p.ensureInit) (input : Bytes)
   rw [wn_coalesce, wn_map_reread]
   exact hout
 
+/-- (per-input form)  **C09 (byte level), comments allowed or not**: the same for every policy without AllowUnsafe and
+    without a raw-text element on its allowlist — a comment between tags is not an element -/
+theorem C09_bytesC_on (p : Policy) (input : Bytes) (hp : PlainOn p.ensureInit (tokenize input))
+    (hwn : wellNested (tokenize input) = true) : wellNested (tokenize (p.sanitizeCore input)) = true := by
+  obtain ⟨ws, toks, hrun, ⟨hbytes, hprov⟩, hout⟩ := C09_events p hp.noUnsafe input hwn
+  have hseg : ∀ k ∈ toks, SegOKC k := by
+    intro k hk
+    obtain ⟨t, ht, hpr⟩ := hprov k hk
+    exact prov_segOKOn (hp.noRaw t ht) (tokenize_wf input t ht) hpr
+  have hb : p.sanitizeCore input = renderAll toks := by
+    unfold Policy.sanitizeCore Policy.sanitizeTokens
+    rw [hrun]
+    simp only
+    unfold TokBytes at hbytes
+    rw [hbytes, flatten_map_render]
+  rw [hb, tokenize_renderAllC toks hseg]
+  unfold wellNested
+  rw [wn_coalesce, wn_map_reread]
+  exact hout
+
 end BM.Props
